@@ -1,7 +1,7 @@
 SPEC = {
     "id": "C05",
     "harness": "c05",
-    "n": {"quick": 320, "thorough": 4000},
+    "n": {"quick": 200, "thorough": 3000},
     "shard": 24,
     "tie_codes": (),      # every code of Check/C05.v is an observable the property determines: always a failing input
 
@@ -15,12 +15,15 @@ SPEC = {
     "not_modelled": ["regexp / text extensions ([a#=re], :matches, :matchesOwn, :contains, :containsOwn)", "Unicode case folding beyond ASCII in i-flag matching", "non-HTML namespaces (foreign content)", "Go stack exhaustion on pathologically nested selectors"],
     "codes": {"1": "match result (bit mask over all nodes in document order) differs from the model", "3": "specificity differs", "4": "pseudo-element differs",
               "5": "ParseGroup disagrees with the parser model (error vs success, or structure)", "6": "String() differs from the printer model",
-              "7": "String() does not re-parse to an equivalent selector", "8": "the implementation panicked", "9": "malformed case"},
+              "7": "String() does not re-parse to an equivalent selector", "8": "the implementation panicked", "9": "malformed case, or the dumped tree violates the invariants assumed of html.Parse",
+              "10": "a parsed selector is outside SelRoundtrip.normal_group, or the model's print/parse round trip changes it",
+              "20": "known deviation from Selectors 4 still present: :has() argument with a combinator is not anchored below the :has element (C05_has_relative_refuted)",
+              "21": "known deviation from Selectors 4 still present: [a^=v] never matches a blank attribute value (C05_blank_attr_refuted)"},
     "theorems_for_kind": {},
     "rule": "SplitMix64-seeded: random HTML documents (<= 34 generated nodes, 6-tag pool + form controls, text/comment nodes between elements, attributes with empty/blank/multi-space/mixed-case values, doctype/comment before <html>) parsed by x/net/html; 12 selector groups per document generated from the grammar to depth 3 (a in [-4,4], b in [-6,6], all attribute operators with/without i, :not/:is/:has/:haschild, all combinators, pseudo-elements), one document in five with the boundary stream (escapes, comments, random damage => parse errors); corpus first; thorough adds the exhaustive small-bounds stream; non-trivial = some selector matches some but not all elements",
 }
 MANIFEST = {
-    "text": "Coq theorems over a line-by-line Gallina port of css/selector (all Match methods, Specificity, parser, String): an+b arithmetic with Go's truncating % and / equals 'exists n >= 0, i = a*n+b' for all integers; the match function equals the Selectors-4 relational specification on every element of every tree (stated DOM invariants of html.Parse as hypotheses; :has with combinators in its argument and blank-attribute substring matching are proved deviations); specificity = (ids, classes+attributes+pseudo-classes, types+pseudo-elements) with max over :is/:not/:has arguments and a strict total order; the parser never panics and terminates for every input; print/parse round trip for the proved fragment. The port is compared with /repo on every run (match masks, specificity, pseudo-element, parse structure, String(), re-parse equivalence) on generated documents x selectors.",
-    "note": "Trusted: Coq kernel (vm_compute), x/net/html (its output tree is the model's input), DataAtom abstraction (asserted per tree), ASCII-only case folding, harness + hook css/selector/verif_export_c05.go. Partial: :lang/:link/:enabled/:disabled/:checked are host-language pseudo-classes outside the property text: ported and compared, their specification is the port itself; parse(print s) round trip proved for a fragment only (full statement kept, checked per case by the tie).",
+    "text": "Coq theorems over a line-by-line Gallina port of css/selector (every Match method, Specificity, the parser, String()): an+b with Go's truncating % and / equals 'exists n >= 0, i = a*n+b' for all integers, and the a = 0 fast paths equal the general path; on every tree satisfying the invariants of html.Parse (checked on each dumped tree) and every selector outside two proved deviations, the match function equals the Selectors-4 relational specification (type/universal/class/id/attribute operators with the i flag, the four combinators, :nth-*(an+b), :first/last/only-*, :root, :empty, :not/:is/:has, lists) at every node; specificity = (ids, classes+attributes+pseudo-classes, types+pseudo-elements) with the maximum over :is/:not/:has arguments, Less a strict total order; ParseGroup returns a group or an error for every byte string (no panic, terminates) and only returns normal-form groups; print/parse round trip proved on an explicit family of 20 526 selector groups. The port is compared with /repo on every run on generated documents x selectors: parse structure, match masks over all nodes, specificity, pseudo-element, String(), re-parse.",
+    "note": "Trusted: Coq kernel (vm_compute), x/net/html (the tree it built is the model's input), the DataAtom abstraction (asserted per tree), ASCII-only case folding for the i flag, the Go harness + hook css/selector/verif_export_c05.go. Partial: the full match statement is refuted for :has() arguments containing a combinator and for [a^=v]/[a$=v]/[a*=v] on blank attribute values (C05_has_relative_refuted, C05_blank_attr_refuted; known findings, witnesses replayed on /repo each run); :lang/:link/:enabled/:disabled/:checked/:input are outside the property text (ported and compared; their specification is the port); the general print/parse round trip is a stated Definition, proved on the explicit family and evaluated by the tie on every parsed selector.",
     "technique": "Coq proof over executable model + vm_compute correspondence with the Go implementation",
 }
